@@ -558,7 +558,12 @@ func (st *StateDB) createObject(addr common.Address) (newobj, prev *stateObject)
 	}
 
 	st.setStateObject(newobj)
-	return newobj, prev
+	// An object deleted by an earlier Finalise of this block is only needed by the
+	// journal (to put it back on revert); to the caller the account does not exist.
+	if prev != nil && !prev.deleted {
+		return newobj, prev
+	}
+	return newobj, nil
 }
 
 // CreateAccount explicitly creates a state object. If a state object with the address
